@@ -290,24 +290,33 @@ fn next_bytes<'s>(
 ) -> Option<&'s [u8]> {
     let offset = bytes.iter().copied().position(|b| {
         if *state == State::Utf8 {
-            true
-        } else {
-            let (next_state, action) = state_change(*state, b);
-            if next_state != State::Anywhere {
-                *state = next_state;
+            if !b.is_ascii() {
+                return true;
             }
-            is_printable_bytes(action, b)
+            // A 7-bit byte is never part of a multi-byte character; abandon the broken one
+            *utf8parser = Default::default();
+            *state = State::Ground;
         }
+        let (next_state, action) = state_change(*state, b);
+        if next_state != State::Anywhere {
+            *state = next_state;
+        }
+        is_printable_bytes(action, b)
     });
     let (_, next) = bytes.split_at(offset.unwrap_or(bytes.len()));
     *bytes = next;
 
     let offset = bytes.iter().copied().position(|b| {
         if *state == State::Utf8 {
-            if utf8parser.add(b) {
-                *state = State::Ground;
+            if !b.is_ascii() {
+                if utf8parser.add(b) {
+                    *state = State::Ground;
+                }
+                return false;
             }
-            return false;
+            // A 7-bit byte is never part of a multi-byte character; abandon the broken one
+            *utf8parser = Default::default();
+            *state = State::Ground;
         }
         // Whitespace can be executed inside of an escape sequence, so check against the current
         // state.  The byte that ends the run is left for the next call to process.
